@@ -13,6 +13,7 @@
    * `meaning_rng/loc`   : the meaning of a WRITTEN list relative to the unit base address = resolve of its
                             entries (defined only when every address is a constant; symbolic addresses need a
                             relocating writer and are outside this spec).
+   * `rejected`          : the lists the pre-v5 pair format cannot hold unambiguously, with the error each one gets.
    * `dec5` / `dec4`     : decoders of the bytes the writers emit: DWARF 5 DW_RLE_* / DW_LLE_* entries and
                             the pre-v5 pair format (terminator (0,0), base selection = all-ones at the
                             address size; location entries carry a u16 length + expression bytes).
@@ -124,13 +125,14 @@ Definition meaning_rng (asz base : N) (l : list wrange) : option (list (N * N)) 
   option_map (fun es => map fst (resolve asz base es)) (ents_of (map loc_of_range l)).
 
 (* the pairs a pre-v5 list is written as (what a reader of the pair format sees when nothing is ambiguous):
-   every entry kind collapses to "address or offset pair"; start+length is summed in u64 *)
+   every entry kind collapses to "address or offset pair"; start+length is summed (the writer rejects a sum
+   that does not fit u64) *)
 Definition pair_of (x : wloc) : option ent :=
   match x with
   | LBase (AConst a) => Some (EBase a)
   | LOffsetPair b e d => Some (EPair b e d)
   | LStartEnd (AConst b) (AConst e) d => Some (EPair b e d)
-  | LStartLength (AConst b) len d => Some (EPair b ((b + len) mod 2 ^ 64) d)
+  | LStartLength (AConst b) len d => Some (EPair b (b + len) d)
   | _ => None
   end.
 Fixpoint pairs_of (l : list wloc) : option (list ent) :=
@@ -142,21 +144,6 @@ Fixpoint pairs_of (l : list wloc) : option (list ent) :=
               end
   end.
 
-(* the value of the first word of the pair an entry is written as, when it is not a base selection *)
-Definition begin_of (x : wloc) : option N :=
-  match x with
-  | LOffsetPair b _ _ => Some b
-  | LStartEnd (AConst b) _ _ => Some b
-  | LStartLength (AConst b) _ _ => Some b
-  | _ => None
-  end.
-
-(* KnownClass of finding F8/S8: some non-base entry begins at the all-ones base-selection marker *)
-Definition marker_clash (asz : N) (l : list wloc) : Prop :=
-  exists x, In x l /\ begin_of x = Some (amod asz - 1).
-Definition marker_clashb (asz : N) (l : list wloc) : bool :=
-  existsb (fun x => match begin_of x with Some b => b =? amod asz - 1 | None => false end) l.
-
 (* ---------------------------------------------------------------- lists the pre-v5 encoding must reject *)
 
 (* #[derive(PartialEq)] on Address *)
@@ -167,29 +154,53 @@ Definition addr_eqb (a b : addr) : bool :=
   | _, _ => false
   end.
 
+(* begin + length representable in the Rust types: u64 for a constant address; for a symbolic address the length
+   must fit i64 (i64::try_from) and addend + length must not overflow i64 *)
+Definition sum_fits (x : wloc) : bool :=
+  match x with
+  | LStartLength (AConst b) len _ => b + len <? 2 ^ 64
+  | LStartLength (ASym _ a) len _ => (len <? 2 ^ 63) && in_i64 (a + Z.of_N len)
+  | _ => true
+  end.
+
+(* the first word of a base-address selection entry: all ones at the address size *)
+Definition marker (asz : N) : N := amod asz - 1.
+
 (* hb = a base address is in force (the unit has one, or a BaseAddress entry came earlier in this list).
    Empty ranges (begin = end, length 0) could be taken for the (0,0) terminator; a pair of offsets needs a base;
-   a pair of addresses must not be added to one; there is no default-location entry before v5. *)
-Definition reject_entry (hb : bool) (x : wloc) : option error :=
+   a pair of addresses must not be added to one; an entry that begins with the marker would be read back as a base
+   address selection; a start+length whose end is not representable cannot be written; there is no
+   default-location entry before v5. The order of the tests is the order of the code. *)
+Definition reject_entry (asz : N) (hb : bool) (x : wloc) : option error :=
   match x with
   | LBase _ => None
   | LOffsetPair b e _ =>
-      if b =? e then Some WInvalidRange else if hb then None else Some WMissingBaseAddress
+      if b =? e then Some WInvalidRange
+      else if negb hb then Some WMissingBaseAddress
+      else if b =? marker asz then Some WInvalidRange
+      else None
   | LStartEnd b e _ =>
-      if addr_eqb b e then Some WInvalidRange else if hb then Some WUnexpectedBaseAddress else None
-  | LStartLength _ len _ =>
-      if len =? 0 then Some WInvalidRange else if hb then Some WUnexpectedBaseAddress else None
+      if addr_eqb b e then Some WInvalidRange
+      else if hb then Some WUnexpectedBaseAddress
+      else if addr_eqb b (AConst (marker asz)) then Some WInvalidRange
+      else None
+  | LStartLength b len _ =>
+      if negb (sum_fits x) then Some WValueTooLarge
+      else if len =? 0 then Some WInvalidRange
+      else if hb then Some WUnexpectedBaseAddress
+      else if addr_eqb b (AConst (marker asz)) then Some WInvalidRange
+      else None
   | LDefault _ => Some WInvalidRange
   end.
 Definition is_base (x : wloc) : bool := match x with LBase _ => true | _ => false end.
 
 (* the error of the first entry that must be rejected, scanning with the running flag *)
-Fixpoint rejected (hb : bool) (l : list wloc) : option error :=
+Fixpoint rejected (asz : N) (hb : bool) (l : list wloc) : option error :=
   match l with
   | [] => None
-  | x :: r => match reject_entry hb x with
+  | x :: r => match reject_entry asz hb x with
               | Some e => Some e
-              | None => rejected (hb || is_base x) r
+              | None => rejected asz (hb || is_base x) r
               end
   end.
 
@@ -203,19 +214,12 @@ Definition plainb (asz : N) (x : wloc) : bool :=
   | LStartLength (AConst b) len d => (b + len <? amod asz) && (N.of_nat (length d) <? 65536)
   | _ => false
   end.
-(* begin + length representable in the Rust type (no overflow of the unchecked `+`) *)
-Definition sum_fits (x : wloc) : bool :=
-  match x with
-  | LStartLength (AConst b) len _ => b + len <? 2 ^ 64
-  | LStartLength (ASym _ a) len _ => in_i64 (a + to_i64 len)
-  | _ => true
-  end.
-(* everything before the first rejected entry is plain, and that entry's sum does not overflow *)
+(* everything before the first rejected entry is plain (so that no earlier ValueTooLarge / InvalidAddress wins) *)
 Fixpoint plain_until_reject (asz : N) (hb : bool) (l : list wloc) : bool :=
   match l with
   | [] => true
-  | x :: r => match reject_entry hb x with
-              | Some _ => sum_fits x
+  | x :: r => match reject_entry asz hb x with
+              | Some _ => true
               | None => plainb asz x && plain_until_reject asz (hb || is_base x) r
               end
   end.
